@@ -280,6 +280,17 @@ func main() {
 	for _, t := range textgen.AttributeInterleavings(run.Thorough()) {
 		jobs = append(jobs, job{t, "attribute-interleaving", "as-is", "attribute-interleaving"})
 	}
+	// string literals and block comments that span lines, with blanks before the line breaks (what is inside a token is
+	// not the formatter's to change), at top level and inside union branches (re-indented bodies)
+	for _, t := range []struct{ name, text string }{
+		{"multi-line-string-trailing-blank", "const string zqBanner = \"first line, \nsecond line\t\nthird\";\nstruct ZqAfter {\n    int32 x;\n}\n"},
+		{"multi-line-deprecation", "message ZqM {\n    [deprecated(\"line one \nline two\")]\n    1 -> int32 x;\n    2 -> string s;\n}\n"},
+		{"multi-line-comment-in-union-branch", "union ZqU {\n    1 -> struct ZqA {\n        /* line one\n           line two */\n        int32 x;\n    }\n    2 -> message ZqB {\n        /* l1\n\tl2 \n  l3 */\n        1 -> int32 y;\n        [deprecated(\"two\nlines\")]\n        2 -> string z;\n    }\n}\n"},
+		{"multi-line-comment-in-struct", "struct ZqS {\n    /* a\n       b */\n    int32 x; /* c\n d */\n    string y;\n}\n"},
+		{"field-then-block-then-line-comment", "struct ZqT {\n    int32 timeout; /* milliseconds */ // since v2\n    [deprecated(\"x\")] int32 old; // gone\n    string s; /* a */ /* b */\n}\n"},
+	} {
+		jobs = append(jobs, job{t.text, t.name, "as-is", "multi-line-token"})
+	}
 	// files longer than a reader buffer, written compactly
 	for _, n := range []int{60, 120, 1200} {
 		jobs = append(jobs, job{textgen.CompactLarge(n), fmt.Sprintf("compact-%d-definitions", n), "one-definition-per-line", "large-file"})
